@@ -628,7 +628,8 @@ class RegExFieldFormat(AbstractFieldFormat):
         super().__init__(field_name, is_allowed_to_be_empty, length, rule, data_format, empty_value="")
         try:
             self.regex = re.compile(rule, re.IGNORECASE | re.MULTILINE)
-        except re.error as error:
+        except (re.error, OverflowError) as error:
+            # NOTE: OverflowError is raised for absurd repetition counts, for example "a{99999999999}".
             raise errors.InterfaceError(
                 "rule must be a valid regular expression but is %s: %s" % (_compat.text_repr(rule), error)
             )
